@@ -83,9 +83,20 @@ func genWriters(g *rng.Rand, W, B, nIDs int) ([][]corpus.Batch, []string, []stri
 	}
 	ver := 0
 	out := make([][]corpus.Batch, W)
+	// hot-key variant: very few ids and tiny batches, so that whole segments are
+	// obsoleted by the next batch (segments that die before they are persisted or merged)
+	hot := g.Chance(1, 3)
+	if hot && nIDs > 2 {
+		nIDs = g.Range(1, 2)
+		ids = ids[:nIDs]
+	}
 	for w := 0; w < W; w++ {
 		for b := 0; b < B; b++ {
-			ops := corpus.GenOps(g, g.Range(1, 4), nIDs)
+			n := g.Range(1, 4)
+			if hot {
+				n = g.Range(1, 2)
+			}
+			ops := corpus.GenOps(g, n, nIDs)
 			for i := range ops {
 				if ops[i].Kind == "index" {
 					ver++
@@ -130,6 +141,10 @@ type gstats struct {
 func runGated(r *ev.Run, dir string, cfg cfgT, seed uint64, policy string) (string, *witness, *gstats, bool) {
 	g := rng.New(seed)
 	W, B, nIDs := g.Range(2, 3), g.Range(3, 5), g.Range(3, 7)
+	if policy == "merge-window" || policy == "duel" {
+		// the copy has to outlive a second round of merges: longer histories
+		W, B = 3, g.Range(6, 9)
+	}
 	writers, ids, keys := genWriters(g.Derive("writers"), W, B, nIDs)
 	base := filepath.Join(dir, fmt.Sprintf("g-%s-%x", cfg.Name, seed))
 	st := &gstats{}
@@ -181,6 +196,42 @@ func runGated(r *ev.Run, dir string, cfg cfgT, seed uint64, policy string) (stri
 	}
 	cg := g.Derive("copies")
 	nJobs := 0
+	// special modes (C14 specific):
+	//  "duel"          two copies are started at the same instant on a root that has file segments; the first one
+	//                  runs to completion at once, everything else runs next, the second copy is released last
+	//  "merge-window"  a copy is started while a root file is still marked ineligible for removal (a merge was
+	//                  introduced but not persisted yet) and is then held until nothing else waits
+	var firstCopier atomic.Value // actor name of the copy that goes first in duel mode
+	duelStarted := false
+	startCopy := func(rn *sched.Runner) {
+		nJobs++
+		busy.Add(1)
+		vs := rn.S.VerifState()
+		if vs.RootMemSegments > 0 {
+			mu.Lock()
+			st.copiesWithUnpersisted++
+			mu.Unlock()
+		}
+		jobs <- copyJob{id: nJobs, dest: filepath.Join(base, fmt.Sprintf("copy%d", nJobs)), expect: rn.Model.Clone(), step: rn.Steps, introsAt: len(rn.Gate.IntroOrder())}
+		for i := 0; i < 200; i++ {
+			s2, strict2, ok := rn.Gate.WaitQuiescent(150*time.Microsecond, 3, 60*time.Millisecond, 10*time.Second)
+			if !ok {
+				break
+			}
+			gatedCopiers := 0
+			for _, w := range s2.Waiters {
+				if strings.HasPrefix(w.Point, "copy.") {
+					gatedCopiers++
+					if firstCopier.Load() == nil && policy == "duel" {
+						firstCopier.Store(w.Actor)
+					}
+				}
+			}
+			if strict2 && gatedCopiers == int(busy.Load()) {
+				break
+			}
+		}
+	}
 	obs := func(rn *sched.Runner, s mon.Status, strict bool) {
 		if !strict {
 			return
@@ -195,37 +246,67 @@ func runGated(r *ev.Run, dir string, cfg cfgT, seed uint64, policy string) (stri
 			fail(rn, "source-state-differs", d, -1)
 			return
 		}
-		if busy.Load() < nCopiers && nJobs < 6 && cg.Chance(1, 3) {
-			nJobs++
-			busy.Add(1)
-			vs := rn.S.VerifState()
-			if vs.RootMemSegments > 0 {
-				mu.Lock()
-				st.copiesWithUnpersisted++
-				mu.Unlock()
+		switch policy {
+		case "duel":
+			if !duelStarted && len(rn.S.VerifState().RootFiles) > 0 {
+				duelStarted = true
+				startCopy(rn)
+				startCopy(rn)
 			}
-			jobs <- copyJob{id: nJobs, dest: filepath.Join(base, fmt.Sprintf("copy%d", nJobs)), expect: rn.Model.Clone(), step: rn.Steps, introsAt: len(rn.Gate.IntroOrder())}
-			// let the copier take its reader (it stops at the copy.readerTaken gate)
-			// before anything else is released, so that the expected state is exact
-			for i := 0; i < 200; i++ {
-				s2, strict2, ok := rn.Gate.WaitQuiescent(150*time.Microsecond, 3, 60*time.Millisecond, 10*time.Second)
-				if !ok {
-					break
-				}
-				gatedCopiers := 0
-				for _, w := range s2.Waiters {
-					if strings.HasPrefix(w.Point, "copy.") {
-						gatedCopiers++
+		case "merge-window":
+			vs := rn.S.VerifState()
+			inWindow := false
+			for _, f := range vs.RootFiles {
+				for _, x := range vs.IneligibleForRemoval {
+					if f == x {
+						inWindow = true
 					}
 				}
-				// every busy copier (including the one just started) sits at a gate
-				if strict2 && gatedCopiers == int(busy.Load()) {
-					break
-				}
+			}
+			if inWindow && busy.Load() < nCopiers && nJobs < 4 {
+				startCopy(rn)
+			}
+		default:
+			if busy.Load() < nCopiers && nJobs < 6 && cg.Chance(1, 3) {
+				startCopy(rn)
 			}
 		}
 	}
-	sc := &sched.Scenario{Dir: filepath.Join(base, "idx"), KV: cfg.KV, Writers: writers, Gates: gates, G: g.Derive("sched"), MaxSteps: 700, Policy: policy,
+	var chooser func(ws []mon.Waiter, g *rng.Rand) mon.Waiter
+	pick := func(ws []mon.Waiter, g *rng.Rand, pred func(mon.Waiter) bool) (mon.Waiter, bool) {
+		var c []mon.Waiter
+		for _, w := range ws {
+			if pred(w) {
+				c = append(c, w)
+			}
+		}
+		if len(c) == 0 {
+			return mon.Waiter{}, false
+		}
+		return c[g.Intn(len(c))], true
+	}
+	switch policy {
+	case "duel":
+		chooser = func(ws []mon.Waiter, g *rng.Rand) mon.Waiter {
+			first, _ := firstCopier.Load().(string)
+			if w, ok := pick(ws, g, func(w mon.Waiter) bool { return first != "" && w.Actor == first }); ok {
+				return w
+			}
+			if w, ok := pick(ws, g, func(w mon.Waiter) bool { return !strings.HasPrefix(w.Point, "copy.") }); ok {
+				return w
+			}
+			return ws[g.Intn(len(ws))]
+		}
+	case "merge-window":
+		chooser = func(ws []mon.Waiter, g *rng.Rand) mon.Waiter {
+			if w, ok := pick(ws, g, func(w mon.Waiter) bool { return !strings.HasPrefix(w.Point, "copy.") }); ok {
+				return w
+			}
+			return ws[g.Intn(len(ws))]
+		}
+	}
+	sc := &sched.Scenario{Dir: filepath.Join(base, "idx"), KV: cfg.KV, Writers: writers, Gates: gates, G: g.Derive("sched"), MaxSteps: 1500, Policy: policy,
+		Choose:    chooser,
 		Extra:     []func(*sched.Runner){copier, copier},
 		AfterOpen: func(rn *sched.Runner) { close(jobs) },
 	}
@@ -397,7 +478,7 @@ func run(r *ev.Run) {
 		"non-trivial = ≥ 1 copy spanned an introduction (persist/merge/segment) or started with unpersisted segments; distinct by scenario seed"
 	r.Assumptions = []string{"schedules are those the seeded gate choices and delays produce"}
 	dir := r.TempDir()
-	nG := r.Scale(80, 1600)
+	nG := r.Scale(160, 3200)
 	nS := r.Scale(24, 480)
 	r.MinDistinct = r.Scale(30, 600)
 	cs := cfgs()
@@ -415,7 +496,8 @@ func run(r *ev.Run) {
 			g := r.Rng(fmt.Sprintf("gated-%d", i))
 			cfg := cs[i%len(cs)]
 			seed := g.Uint64()
-			policy := sched.Policies[(i/len(cs))%len(sched.Policies)]
+			pols := append(append([]string{}, sched.Policies...), "duel", "merge-window", "duel", "merge-window")
+			policy := pols[(i/len(cs))%len(pols)]
 			problem, wit, st, timedOut := runGated(r, dir, cfg, seed, policy)
 			r.Case(fmt.Sprintf("gated/%s/%x", cfg.Name, seed), st.copiesSpanningIntro > 0 || st.copiesWithUnpersisted > 0)
 			mu.Lock()
